@@ -150,10 +150,11 @@ ghost_after('PartProcessor._shutdown', 'c(self, is_failure, lost_part)',
                  'trace_ref(trace_len() - 1, 0) is self and trace_bool(trace_len() - 1, 0) == is_failure and '
                  'trace_ref(trace_len() - 1, 1) is lost_part',
             g_cb='g_cb + 1')
-loop('PartProcessor._shutdown', 1, 'for c in self._shutdown_callbacks',
-     {'callbacks_so_far': 'g_ok and g_cb == k and trace_len() == at_loop_entry(trace_len()) + k',
-      'cycle_time_valid': 'self._cycle_time >= 0'},
-     modifies=['self._waiting_for_downstream_space', 'self._cycle_time', 'self._next_cycle_time_offset', '$trace'], index='k')
+for ordinal_ in (1, 2):      # loop 1: failure of a machine that is already down, loop 2: the regular shutdown
+    loop('PartProcessor._shutdown', ordinal_, 'for c in self._shutdown_callbacks',
+         {'callbacks_so_far': 'g_ok and g_cb == k and trace_len() == at_loop_entry(trace_len()) + k',
+          'cycle_time_valid': 'self._cycle_time >= 0'},
+         modifies=['self._waiting_for_downstream_space', 'self._cycle_time', 'self._next_cycle_time_offset', '$trace'], index='k')
 
 contract('PartProcessor._shutdown', props=['C13', 'C06'], args={'is_failure': 'bool', 'lost_part': 'ref:Part'}, modular=True,
          invariants=False, ghost_results={'g_ok': 'bool', 'g_cb': 'int'},
@@ -208,4 +209,105 @@ contract('PartProcessor._fail', props=['C13', 'C06', 'C02', 'C11', 'C15'], args=
                  'self._is_shut_down and g_ok and g_cb == len(self._shutdown_callbacks) and '
                  'any(trace_kind(i) == fn_id("cancel_matching_events") and trace_real(i, 0) == self._id '
                  '    for i in range(old(trace_len()), trace_len()))',
+             **CONT})
+
+ghost_after('PartProcessor.restore_functionality', '<entry>', g_ok='True', g_cb='0')
+ghost_after('PartProcessor.restore_functionality', 'c(self)',
+            g_ok='g_ok and trace_kind(trace_len() - 1) == 0 and trace_fn(trace_len() - 1) == self._restored_callbacks[k] and '
+                 'trace_ref(trace_len() - 1, 0) is self', g_cb='g_cb + 1')
+loop('PartProcessor.restore_functionality', 1, 'for c in self._restored_callbacks',
+     {'callbacks_so_far': 'g_ok and g_cb == k and trace_len() == at_loop_entry(trace_len()) + k',
+      'cycle_time_valid': 'self._cycle_time >= 0'},
+     modifies=['self._waiting_for_downstream_space', 'self._cycle_time', 'self._next_cycle_time_offset', '$trace'], index='k')
+contract('PartProcessor.restore_functionality', props=['C13', 'C06', 'C03'], args={}, requires=PP_READY,
+         ensures={
+             'C13/operational_afterwards': 'not self._is_shut_down',
+             'C13/repeated_restore_is_a_no_op':
+                 'implies(not old(self._is_shut_down), trace_len() == old(trace_len()) and self._uptime == old(self._uptime) and '
+                 '        self._last_restore == old(self._last_restore) and self._last_use_start == old(self._last_use_start))',
+             'C06/paused_events_resumed':
+                 'implies(old(self._is_shut_down), trace_kind(old(trace_len())) == fn_id("unpause_matching_events") and '
+                 '        trace_recv(old(trace_len())) is self._env and trace_real(old(trace_len()), 0) == self._id)',
+             'C13,C03/finished_part_is_offered_again_now_or_upstream_is_told_about_the_free_slot':
+                 'implies(old(self._is_shut_down), '
+                 '  ite(self._output is not None, '
+                 '      trace_kind(old(trace_len()) + 1) == fn_id("schedule_event") and '
+                 '      trace_fn(old(trace_len()) + 1) == method(self, "_pass_part_downstream") and '
+                 '      trace_real(old(trace_len()) + 1, 0) == self._env._now, '
+                 '      implies(self._part is None, '
+                 '        all(trace_kind(old(trace_len()) + 1 + j) == fn_id("space_available_downstream") and '
+                 '            trace_recv(old(trace_len()) + 1 + j) is self._upstream[j] for j in range(len(self._upstream))))))',
+             'C13/restored_callbacks_once_each_in_order':
+                 'implies(old(self._is_shut_down), g_ok and g_cb == len(self._restored_callbacks))',
+             'C13/keeps_parts_and_resources': 'self._part is old(self._part) and self._output is old(self._output) and '
+                                              'self._reserved_resources is old(self._reserved_resources)',
+             **CONT})
+
+contract('PartProcessor.start_work', props=['C13'], args={'tag': 'any'}, requires=PP_READY,
+         ensures={'default_work_order_shuts_the_machine_down': 'self._is_shut_down', **CONT})
+contract('PartProcessor.end_work', props=['C13'], args={'tag': 'any'}, requires=PP_READY,
+         ensures={'default_work_order_end_restores_the_machine': 'not self._is_shut_down', **CONT})
+for nm_ in ('get_work_order_duration', 'get_work_order_capacity', 'get_work_order_cost'):
+    contract(f'PartProcessor.{nm_}', props=['C13'], args={'tag': 'any'}, result='int',
+             ensures={'default_is_zero': 'result == 0'}, modifies=[])
+
+# --------------------------------------------------------------------------- processing cycle of a PartProcessor
+ghost_after('PartProcessor._finish_cycle', '<entry>', g_ok='True', g_cb='0')
+ghost_after('PartProcessor._finish_cycle', 'c(self, self._output)',
+            g_ok='g_ok and trace_kind(trace_len() - 1) == 0 and trace_fn(trace_len() - 1) == self._finish_processing_callbacks[k] '
+                 'and trace_ref(trace_len() - 1, 0) is self and trace_ref(trace_len() - 1, 1) is self._output', g_cb='g_cb + 1')
+loop('PartProcessor._finish_cycle', 1, 'for c in self._finish_processing_callbacks',
+     {'callbacks_so_far': 'g_ok and g_cb == k and trace_len() == at_loop_entry(trace_len()) + k',
+      'slots': 'self._output is at_loop_entry(self._output) and self._output is not None and self._part is None',
+      'cycle_time_valid': 'self._cycle_time >= 0'},
+     modifies=['self._waiting_for_downstream_space', 'self._cycle_time', 'self._next_cycle_time_offset', '$trace'], index='k')
+
+contract('PartProcessor._finish_cycle', props=['C06', 'C11', 'C13', 'C15', 'C02'], args={}, modular=True,
+         ghost_results={'g_ok': 'bool', 'g_cb': 'int'},
+         requires=dict(PP_READY,
+                       has_part_in_process_and_free_output='operational(self) and self._part is not None and self._output is None',
+                       processing_since='self._last_use_start is not None'),
+         ensures={
+             'C06,C02/part_moves_to_output': 'self._output is old(self._part) and self._part is None',
+             'C06/hand_over_scheduled_now':
+                 'trace_kind(old(trace_len())) == fn_id("schedule_event") and trace_real(old(trace_len()), 0) == self._env._now '
+                 'and trace_real(old(trace_len()), 1) == self._id and '
+                 'trace_fn(old(trace_len())) == method(self, "_pass_part_downstream")',
+             'C11/release_of_resources_scheduled_at_the_same_instant':
+                 'implies(self._reserved_resources is not None, '
+                 '  trace_kind(old(trace_len()) + 1) == fn_id("schedule_event") and '
+                 '  trace_real(old(trace_len()) + 1, 0) == self._env._now and trace_real(old(trace_len()) + 1, 2) == 6 and '
+                 '  trace_fn(old(trace_len()) + 1) == method(self, "_release_resources_if_idle"))',
+             'C13/finish_callbacks_once_each_in_order_with_the_finished_part':
+                 'g_ok and g_cb == len(self._finish_processing_callbacks)',
+             'C15/one_produced_part_record_after_the_callbacks':
+                 'trace_kind(trace_len() - 1) == fn_id("add_datapoint") and trace_ref(trace_len() - 1, 0) == "produced_part" and '
+                 'trace_ref(trace_len() - 1, 1) == self._name and trace_real(trace_len() - 1, 0) == self._env._now',
+             'C11/keeps_the_reservation_for_now': 'self._reserved_resources is old(self._reserved_resources)',
+             'holder_settings_stay_valid': 'self._cycle_time >= 0',
+             'C13/processing_time_is_booked': 'self._last_use_start is None',
+             **CONT},
+         modifies=['self._part', 'self._output', 'self._waiting_for_downstream_space', 'self._time_in_use', 'self._last_use_start',
+                   'self._cycle_time', 'self._next_cycle_time_offset', '$trace'])
+
+ghost_after('PartHandler.give_part', '<entry>', g_delta='0', g_ct='0', g_off='0', g_ok='True', g_cb='0')
+contract('PartHandler.give_part@PartProcessor', props=['C02', 'C06', 'C11', 'C13', 'C15'], for_cls=['PartProcessor'],
+         args={'part': 'ref:Part'}, result='bool',
+         requires=dict(PP_READY, part_alive='part is None or alive(part)'),
+         ensures={
+             'C13,C02/refuses_when_down_busy_or_blocked':
+                 'implies(not old(operational(self) and base_open(self, part)), not result)',
+             'C02/refusal_keeps_the_slots':
+                 'implies(not result, self._part is old(self._part) and self._output is old(self._output))',
+             'C02/holds_exactly_the_accepted_part':
+                 'implies(result, (self._part is part and self._output is None) or (self._part is None and self._output is part))',
+             'C11/works_only_while_holding_the_required_resources':
+                 'implies(result, self._resources_for_processing is None or self._reserved_resources is not None)',
+             'C06/finishes_after_the_cycle_time_in_effect_plus_one_shot_offset_floored_at_zero':
+                 'implies(result, g_delta == ite(g_ct + g_off >= 0, g_ct + g_off, 0) and '
+                 '  implies(g_delta > 0, self._next_cycle_time_offset == 0 and self._part is part and '
+                 '      trace_kind(trace_len() - 1) == fn_id("schedule_event") and '
+                 '      trace_real(trace_len() - 1, 0) == self._env._now + g_delta and trace_real(trace_len() - 1, 1) == self._id and '
+                 '      trace_real(trace_len() - 1, 2) == 8 and trace_fn(trace_len() - 1) == method(self, "_finish_cycle")) and '
+                 '  implies(g_delta <= 0, self._output is part))',
              **CONT})
